@@ -147,6 +147,32 @@ def mutants(args, seed, jobs):
     return 1 if failures else 0
 
 
+def miri_sensitivity(args, seed, jobs):
+    """The Miri cross-check must report undefined behaviour on a tree that has some:
+    apply the named patch (default: a seeded C02 change) to the scratch copy and run the
+    cross-check there."""
+    name = args[0] if args else "C02-implicit-weak-released-before-values"
+    patches = collect_patches([name])
+    if not patches:
+        print("unknown patch", name)
+        return 2
+    scratch_setup()
+    try:
+        err = scratch_apply(patches[0][1])
+        if err:
+            print("PATCH DOES NOT APPLY OR BUILD:", err[:300])
+            return 2
+        env = dict(os.environ, VERIF_SELFTEST_BIN=f"{MUT}/target/release/cactus-sim", VERIF_SELFTEST_OUT=f"{MUT}/out", VERIF_SELFTEST_SIM=f"{MUT}/sim")
+        code = "import sys; sys.path.insert(0, %r); import driver as D; t, bad, note = D.miri_crosscheck('C02', %d, %d, %d); print('MIRI', t, len(bad), note); print(bad[0][1][:400] if bad else '')" % (os.path.join(D.VERIF, "driver"), seed, int(os.environ.get("VERIF_MIRI_HISTORIES", "320")), jobs)
+        r = subprocess.run([sys.executable, "-c", code], stdout=subprocess.PIPE, stderr=subprocess.STDOUT, text=True, env=env)
+        print(r.stdout[-1500:])
+        ok = any(l.startswith("MIRI") and int(l.split()[2]) > 0 for l in r.stdout.splitlines())
+        print("miri sensitivity:", "OK (undefined behaviour reported)" if ok else "NOT OK (nothing reported)")
+        return 0 if ok else 1
+    finally:
+        sh(f"rm -rf {MUT}")
+
+
 def main(args, seed, jobs):
     if not args:
         print(__doc__)
@@ -155,5 +181,7 @@ def main(args, seed, jobs):
         return determinism(args[1:], seed, jobs)
     if args[0] == "mutants":
         return mutants(args[1:], seed, jobs)
+    if args[0] == "miri":
+        return miri_sensitivity(args[1:], seed, jobs)
     print(__doc__)
     return 2
